@@ -18,6 +18,7 @@ struct Violation
     long double ratio = 0;  // observed / allowed
     double min_beta_rel = -1;  // near-breakdown indicator of the epoch the violation was observed in (-1: unknown)
     long expands = 0;
+    long restarts = 0;    // implicit restarts since the last init() when the violation was observed
     Json params;          // mode-specific coordinates of the failing case (e.g. the fault position of a C14 violation)
     std::string cls() const { return prop + ":" + clause; }
 };
